@@ -248,7 +248,7 @@ func (cfg *c02Config) program() *Program {
 
 func c02Cases(tier string) int {
 	if tier == "thorough" {
-		return c02EnumCount + 600000
+		return c02EnumCount + 3000000
 	}
 	return c02EnumCount + 100000
 }
